@@ -81,7 +81,7 @@ def wf (r : Result) : Bool :=
  `where` {res, tbl, j, vals}               → simple `where`
  `raw`   {res, x, l, p, span}              → `raw_learners` model (both variants) and spec
  `remove`{ts, ids, cut}                    → `_remove` row numbers -/
-def handle (req : Json) : Except String Json := do
+def handle1 (req : Json) : Except String Json := do
   let kind ← str (← field req "kind")
   match kind with
   | "ma" =>
@@ -129,5 +129,10 @@ def handle (req : Json) : Except String Json := do
     let cut ← nat (fieldD req "cut" (ofNat 0))
     pure (obj [("model", exc (ofList ofNat) (remove ts ids cut))])
   | _ => throw s!"unknown kind {kind}"
+
+/-- the request's `tok` is echoed so that the harness can re-synchronise after an abandoned request -/
+def handle (req : Json) : Except String Json := do
+  let r ← handle1 req
+  pure (r.setObjVal! "tok" (fieldD req "tok" Json.null))
 
 end Coba.C18.Driver
